@@ -181,13 +181,6 @@ theorem ascN_img (F : Nat → Bytes) (j : Nat) (b : Bytes) (hj : j < maxWalFiles
 
 /-! ## the replayer's file loop on complete and cut files -/
 
--- TEMP: to be replaced by the lemma of SST/Proofs/RecordIODamage.lean
-theorem truncate_prefix_err (c : Compression) (ct : Nat) (rs : List GoBytes)
-    (hl : LawfulC c) (hf : ∀ r ∈ rs, FitsRec c r) (hct : ct ≤ maxCompression) (n : Nat) :
-    ∃ e, (e = .eof ∨ e = .unexpectedEof) ∧
-      openReadAll c ((fileHeader currentVersion ct ++ encAll c rs).take n) = (rs.take (wholeIn c rs n), e) := by
-  sorry
-
 theorem parseFileHeader_ok_len (f : Bytes) (p : Nat × Nat) (h : parseFileHeader f = .ok p) :
     fileHeaderSize ≤ f.length := by
   unfold parseFileHeader at h
